@@ -97,11 +97,15 @@ pub fn run(args: &[String]) {
         let y0 = p.y0();
         let tolr: ivp::methods::Tolerance = if vector_tol { rtol.clone().into() } else { rtol[0].into() };
         let tola: ivp::methods::Tolerance = if vector_tol || atol[0] == 0.0 { atol.clone().into() } else { atol[0].into() };
+        // every fifth DOPRI5 / DOP853 case runs the stiffness detector at every accepted step, or every second / seventh
+        let nstiff: Option<usize> = if matches!(method, Method::DOPRI5 | Method::DOP853) && !stiff_exit && id % 5 == 3 { Some([1usize, 2, 7][(id / 5) % 3]) } else { None };
         let res = match method {
             Method::RK4 => RK4::builder().max_steps(nmax).dense_output(dense).build().solve(&lf, x0, &y0, xend, h4, Some(&mut rec)),
             Method::RK23 => RK23::builder().maybe_first_step(first).maybe_max_step(maxstep).max_steps(nmax).dense_output(dense).build().solve(&lf, x0, &y0, xend, tolr, tola, Some(&mut rec)),
-            Method::DOPRI5 => DOPRI5::builder().maybe_first_step(first).maybe_max_step(maxstep).max_steps(nmax).dense_output(dense).build().solve(&lf, x0, &y0, xend, tolr, tola, Some(&mut rec)),
-            _ => DOP853::builder().maybe_first_step(first).maybe_max_step(maxstep).max_steps(nmax).dense_output(dense).build().solve(&lf, x0, &y0, xend, tolr, tola, Some(&mut rec)),
+            Method::DOPRI5 => match nstiff { Some(k) => DOPRI5::builder().maybe_first_step(first).maybe_max_step(maxstep).max_steps(nmax).dense_output(dense).stiff_test(k).build().solve(&lf, x0, &y0, xend, tolr, tola, Some(&mut rec)),
+                None => DOPRI5::builder().maybe_first_step(first).maybe_max_step(maxstep).max_steps(nmax).dense_output(dense).build().solve(&lf, x0, &y0, xend, tolr, tola, Some(&mut rec)) },
+            _ => match nstiff { Some(k) => DOP853::builder().maybe_first_step(first).maybe_max_step(maxstep).max_steps(nmax).dense_output(dense).stiff_test(k).build().solve(&lf, x0, &y0, xend, tolr, tola, Some(&mut rec)),
+                None => DOP853::builder().maybe_first_step(first).maybe_max_step(maxstep).max_steps(nmax).dense_output(dense).build().solve(&lf, x0, &y0, xend, tolr, tola, Some(&mut rec)) },
         };
         let res = match res { Ok(r) => r, Err(_) => continue };
         if lf.log.borrow().len() > 60_000 { continue; }
@@ -109,11 +113,12 @@ pub fn run(args: &[String]) {
         writeln!(out, "ok").unwrap();
         writeln!(
             ops,
-            "method {} n={} x0={} xend={} rtol={} atol={} first={} maxstep={} nmax={} dense={} h={} script={}",
+            "method {} n={} x0={} xend={} rtol={} atol={} first={} maxstep={} nmax={} dense={} h={} script={} nstiff={}",
             method_name(method), n, hx(x0), hx(xend), hxs(&rtol), hxs(&atol),
             if method == Method::RK4 { "-".to_string() } else { first.map(hx).unwrap_or("-".into()) },
             if method == Method::RK4 { "-".to_string() } else { maxstep.map(hx).unwrap_or("-".into()) },
-            nmax, dense as u8, hx(h4), if script_s.is_empty() { "-".to_string() } else { script_s.join(",") }
+            nmax, dense as u8, hx(h4), if script_s.is_empty() { "-".to_string() } else { script_s.join(",") },
+            nstiff.map(|k| k.to_string()).unwrap_or("-".into())
         )
         .unwrap();
         writeln!(out, "ok").unwrap();
